@@ -134,5 +134,24 @@ def main():
     report(dict(done=out))
 
 
+def group_main():
+    """one parent that has imported klepto forks its workers (what multiprocessing's fork start method does): the workers inherit the
+    parent's interpreter state - module globals, private random generators - and each then runs its own job"""
+    import klepto, klepto._archives, klepto.archives        # imported (and whatever it seeds, seeded) BEFORE the fork
+    jobs = json.load(open(sys.argv[2]))
+    pids = []
+    for jp in jobs:
+        pid = os.fork()
+        if pid == 0:
+            sys.argv = [sys.argv[0], jp]
+            try: main()
+            finally: os._exit(0)
+        pids.append(pid)
+    for pid in pids:
+        try: os.waitpid(pid, 0)
+        except OSError: pass
+
+
 if __name__ == '__main__':
-    main()
+    if len(sys.argv) > 2 and sys.argv[1] == '--group': group_main()
+    else: main()
